@@ -25,13 +25,12 @@ EXPLANATION = (
     "closure exactly once, with the item, and resolves to the closure future's own output; (STACK) every adapter's drive wraps the "
     "given consumer exactly once and returns inner.drive(wrapped).await; adapter structs are built only by their `new` and never "
     "mutated; collect = B::from_concurrent_stream(self). Multiset equality itself is a value-level fact that is argued, not computed.")
-EXPLANATION += (' (GROUP) premise re-checked here: the FutureGroup holding the item futures registers every pushed future completely, polls every armed member, yields each output exactly once and reports None only when empty; adapter constructors store their operands unchanged.')
+EXPLANATION += (" (STACK) adapter constructors store their operands unchanged and the provided methods limit / take / enumerate / map build the adapter from exactly (self, argument).")
 ASSUMPTIONS = [
     "futures_buffered::FuturesUnordered yields each pushed future's output exactly once (library model)",
     "the source-side exactly-once delivery of items to send() is C13.DRIVE",
 ]
 RULES = {
-    "C15.GROUP": "premise: the FutureGroup holding the item futures registers every pushed future, polls every armed member, yields each output exactly once and None only when empty",
     "C15.ENUM": "index read before the single increment and attached at send; EnumerateFuture returns (stored index, item)",
     "C15.TAKE": "no forward when count >= limit; else count+1 once, one inner.send of the given future; Break iff count >= limit afterwards; count starts 0, limit from Take::new only",
     "C15.COLLECT": "VecConsumer: one push per send; every completed output pushed to the Vec with no suspension in between; loops end only on None; the lent Vec is returned",
@@ -46,9 +45,6 @@ def run(ctx):
     for cfg in ctx.configs:
         ctx.current_config = cfg
         M = ctx.model(cfg)
-        from . import c11 as _c11
-        _c11.premises(ctx, M, "C15.GROUP")
-        ctx.floor("C15.GROUP", cfg, 40)
         rule_enum(ctx, M)
         rule_take(ctx, M)
         rule_collect(ctx, M)
